@@ -295,6 +295,14 @@ def run_shard(ctx):
                 except _Stop:
                     ctx.count("abandoned_traversals")
 
+            # generators abandoned after a few items (never exhausted, never closed explicitly)
+            for make in (lambda: root.dfs(), lambda: root.bfs(), lambda: root.gather(ASTNode), lambda: root.dfs(bottom_up=True)):
+                g = make()
+                for _ in range(rng.randint(0, 2)):
+                    next(g, None)
+                del g
+                ctx.count("abandoned_traversals")
+
             def reentrant(info):
                 list(info.node.dfs())
                 list(info.node.gather(ASTNode))
